@@ -90,6 +90,17 @@ func runObligations(obls []*Obligation, o RunOpts) {
 				if piecewiseFirst {
 					// quantified conjunctions / joins are discharged piece by piece right away
 					r = SolveResult{Status: "unknown", Solver: "piecewise"}
+				} else if ob.WantSat && strings.Contains(q, "(forall ") {
+					// vacuity/cover query under quantified assumptions: the solvers rarely find a model of the whole
+					// query; it is decided on the quantifier-free part below (unsat there is a definite contradiction)
+					// ... after a short attempt on the whole query, which catches contradictions among the quantified
+					// assumptions that a solver sees at once
+					so3 := so
+					so3.TimeoutMs = 2500
+					r = Solve(q, so3)
+					if r.Status != "unsat" && r.Status != "sat" {
+						r = SolveResult{Status: "unknown", Solver: "relaxed-first", Ms: r.Ms}
+					}
 				} else {
 					r = Solve(q, so)
 				}
